@@ -7,7 +7,8 @@ case = {'nps': [number of scripted processors of handle 0, 1, ...],
 frame = {'t': reading in eighths, 'pokes': [[handle, token], ...], 'pos': int,
          'org': 'proc' | 'event' | 'coro',
          'act': ['normal'] | ['quit'] | ['quitloop', 'default' | 'current'] |
-                ['switch', h, cc, cn, explicit_from] | ['raisesw', h, cc, cn] | ['other']}
+                ['switch', h, cc, cn, explicit_from] | ['raisesw', h, cc, cn] | ['other'] |
+                ['direct', h, cc, cn]   (the_loop.switch(h, cc, cn) called inside the frame)}
 """
 from harness.core import z, b, lst
 
@@ -16,7 +17,7 @@ ORG = {'proc': 'OProc', 'event': 'OEvent', 'coro': 'OCoro'}
 
 # ------------------------------------------------------------------ generator
 def continues(act):
-    return act[0] in ('normal', 'switch', 'raisesw')
+    return act[0] in ('normal', 'switch', 'raisesw', 'direct')
 
 
 KINDS = ['load', 'in', 'out', 'quit']
@@ -99,9 +100,13 @@ def gen_case(rng, big=False, reacts=True):
                 cc = flags() and h != curh and not risky[0]
                 act = ['switch', h, cc, False, rng.random() < 0.5]
                 curh = h
-            else:
+            elif r < 0.93 or last:
                 h = rng.randrange(nh)
                 act = ['raisesw', h, flags(), flags()]
+                curh = h
+            else:
+                h = rng.randrange(nh)
+                act = ['direct', h, flags(), flags()]
                 curh = h
             pokes = []
             for _ in range(rng.choice([0, 0, 1, 1, 2])):
@@ -142,7 +147,7 @@ def shrink(case):
                 simpler.append(dict(f, org='proc'))
             if f['pos'] != 0:
                 simpler.append(dict(f, pos=0))
-            if f['act'][0] in ('switch', 'raisesw') and (f['act'][2] or f['act'][3]):
+            if f['act'][0] in ('switch', 'raisesw', 'direct') and (f['act'][2] or f['act'][3]):
                 simpler.append(dict(f, act=f['act'][:2] + [False, False] + f['act'][4:]))
             if f['act'][0] != 'normal' and k < len(fs) - 1:
                 simpler.append(dict(f, act=['normal']))
@@ -227,6 +232,9 @@ def run(case):
             raise desper.SwitchWorld(handles[act[1]], clear_current=act[2], clear_next=act[3])
         elif kind == 'other':
             raise Boom()
+        elif kind == 'direct':
+            loop.switch(handles[act[1]], act[2], act[3])
+            return
         raise AssertionError('the action did not raise')
 
     def react(kind, world):
@@ -412,6 +420,8 @@ def enc_action(a):
         return '(ARaiseSW %s %s %s)' % (z(a[1]), b(a[2]), b(a[3]))
     if k == 'other':
         return 'AOther'
+    if k == 'direct':
+        return '(ADirect %s %s %s)' % (z(a[1]), b(a[2]), b(a[3]))
     raise ValueError(a)
 
 
@@ -567,7 +577,7 @@ def stats(cases, traces):
                 a = f['act']
                 inc('act.' + a[0])
                 inc('origin.' + f['org'])
-                if a[0] in ('switch', 'raisesw'):
+                if a[0] in ('switch', 'raisesw', 'direct'):
                     inc('%s.cc=%d,cn=%d' % (a[0], a[2], a[3]))
                 if f['pokes']:
                     inc('frames_with_pokes')
